@@ -37,6 +37,7 @@ import (
 	"github.com/evanw/esbuild/internal/resolver"
 	"github.com/evanw/esbuild/internal/runtime"
 	"github.com/evanw/esbuild/internal/sourcemap"
+	"github.com/evanw/esbuild/internal/verif"
 	"github.com/evanw/esbuild/internal/xxhash"
 )
 
@@ -122,6 +123,7 @@ type tlaCheck struct {
 }
 
 func parseFile(args parseArgs) {
+	verif.Event("scan.parse", "cwd", args.fs.Cwd(), "path", args.keyPath.Text, "ns", args.keyPath.Namespace, "idx", args.sourceIndex)
 	pathForIdentifierName := args.keyPath.Text
 
 	// Identifier name generation may use the name of the parent folder if the
@@ -263,6 +265,7 @@ func parseFile(args parseArgs) {
 			args.results <- result
 		}
 	}()
+	verif.GatePanic("scan.panic", source.KeyPath.Text)
 
 	switch loader {
 	case config.LoaderJS, config.LoaderEmpty:
@@ -773,6 +776,7 @@ func parseFile(args parseArgs) {
 		}
 	}
 
+	verif.Gate("scan.send", source.KeyPath.Text)
 	args.results <- result
 }
 
@@ -1487,6 +1491,7 @@ func ScanBundle(
 	//   }
 	//
 	onStartWaitGroup.Wait()
+	verif.Event("scan.barrier", "cwd", fs.Cwd())
 	timer.End("On-start callbacks")
 
 	// We can check the cancel flag now that all "onStart" callbacks are done
@@ -1555,6 +1560,7 @@ func (s *scanner) maybeParseFile(
 	// Only parse a given file path once
 	visited, ok := s.visited[visitedKey]
 	if ok {
+		verif.Event("scan.visit", "cwd", s.fs.Cwd(), "path", visitedKey.Text, "ns", visitedKey.Namespace, "hit", true, "idx", visited.sourceIndex)
 		if inject != nil {
 			inject <- config.InjectedFile{}
 		}
@@ -1566,6 +1572,7 @@ func (s *scanner) maybeParseFile(
 	}
 	s.visited[visitedKey] = visited
 	s.remaining++
+	verif.Event("scan.visit", "cwd", s.fs.Cwd(), "path", visitedKey.Text, "ns", visitedKey.Namespace, "hit", false, "idx", visited.sourceIndex)
 	optionsClone := s.options
 	if kind != inputKindStdin {
 		optionsClone.Stdin = nil
@@ -2185,9 +2192,11 @@ func (s *scanner) scanAllDependencies() {
 
 		result := <-s.resultChannel
 		s.remaining--
+		verif.Event("scan.recv", "cwd", s.fs.Cwd(), "ok", result.ok, "remaining", s.remaining)
 		if !result.ok {
 			continue
 		}
+		verif.Event("scan.result", "cwd", s.fs.Cwd(), "path", result.file.inputFile.Source.KeyPath.Text, "idx", result.file.inputFile.Source.Index)
 
 		// Don't try to resolve paths if we're not bundling
 		if recordsPtr := result.file.inputFile.Repr.ImportRecords(); s.options.Mode == config.ModeBundle && recordsPtr != nil {
